@@ -6,6 +6,7 @@ ops (stateless):
          "nrow": number of row entities, used for the coverage check and the counts vector
   {"op":"update","ndr":k,"active":[..],"old":coo[,"fresh":coo]} -> coo   (fresh defaults to the matrix of the last glue op with "store":true)
   {"op":"gluecoded","ndr","ndc","nrow","subs"} -> coo   glue with the Mpfa shortcut as coded now
+  {"op":"fresh2","ndr","ndc","divide","coded","nrow","subs":[..active-grid numbering..],"outer":{"own","l2gR","l2gC"}} -> coo (stored)
   {"op":"subgrid","cn":[[..]],"fn":[[..]],"parts":[[..]]} -> {"cells":[[..]],"faces":[[..]]}   subproblems(): subgrid cells / faces_in_subgrid per partition
   {"op":"cellind","cn","fn","cells":null|[..],"faces":null|[..],"nodes":null|[..]} -> {"cells":[..],"faces":[..]}   cell_ind_for_partial_update
   {"op":"maps","l2g":[..],"nd":k,"probe":[..]} -> {"gidx":[..],"back":[..],"lidx":[..]}
@@ -68,6 +69,20 @@ def step (st : COO) (j : Json) : R (COO × Json) := do
     let counts := (List.range nrow).map (count subs)
     if counts.any (· == 0) then pure (st, err "Uncovered") else
     pure (st, putCOO (glueAsCoded nrow ndr ndc subs) [("counts", ofNats counts)])
+  | "fresh2" =>
+    -- split partial discretisation: glue on the active grid, then lift (stored as the fresh matrix)
+    let ndr ← fNat j "ndr"
+    let ndc ← fNat j "ndc"
+    let divide ← fBool j "divide"
+    let coded ← fBool j "coded"
+    let nrow ← fNat j "nrow"
+    let subs ← (field j "subs" >>= jList getSub)
+    let o ← field j "outer"
+    let outer : Sub := { own := (← fNats o "own"), l2gR := (← fNats o "l2gR"), l2gC := (← fNats o "l2gC"), loc := [] }
+    let counts := (List.range nrow).map (count subs)
+    if divide && counts.any (· == 0) then pure (st, err "Uncovered") else
+    let M := partialFreshSplit nrow ndr ndc coded divide subs outer
+    pure (M, putCOO M [("counts", ofNats counts)])
   | "subgrid" =>
     let cn ← fNatss j "cn"
     let fn ← fNatss j "fn"
